@@ -337,7 +337,7 @@ static void scen_reg(void)
 }
 
 /* ================================================================== LIFE */
-static int life_cycles, life_ntrees, life_nreg, life_ncustom, life_null, life_fds_before, life_unbalanced_last, life_argv;
+static int life_cycles, life_ntrees, life_nreg, life_ncustom, life_null, life_fds_before, life_unbalanced_last, life_argv, life_null_at;
 static uint64_t life_digest[8];
 static void scen_life(void)
 {
@@ -345,13 +345,31 @@ static void scen_life(void)
         vh_op("cycle %d: init, register %d contexts%s + %d built-ins, parse %d trees, free", cyc, life_nreg, life_null ? " + null" : "", life_ncustom, life_ntrees);
         sub_init();
         cx_ctxs_init(&ctxs);
-        if (life_null) { spifconf_register_context((spif_charptr_t) "null", cx_handlers[0]); cx_ctxs_register(&ctxs, "null", 0); }
-        for (int i = 0; i < life_nreg; i++) { int want = cx_ctxs_register(&ctxs, NAMES[i], ctxs.n); unsigned char id = spifconf_register_context((spif_charptr_t) NAMES[i], cx_handlers[want]); VH_CHECK(id == want, "register:id", "cycle %d: context %s got id %u, expected %d", cyc, NAMES[i], id, want); }
+        /* the null context's handler is replaced at a point of the registration sequence that is fixed per program (before, between or after the others) */
+        for (int i = 0; i <= life_nreg; i++) {
+            if (life_null && i == life_null_at) { unsigned char id0 = spifconf_register_context((spif_charptr_t) "null", cx_handlers[0]); cx_ctxs_register(&ctxs, "null", 0); VH_CHECK(id0 == 0, "register:id", "cycle %d: re-registering null after %d contexts returned id %u", cyc, i, id0); }
+            if (i == life_nreg) break;
+            int want = cx_ctxs_register(&ctxs, NAMES[i], ctxs.n); unsigned char id = spifconf_register_context((spif_charptr_t) NAMES[i], cx_handlers[want]); VH_CHECK(id == want, "register:id", "cycle %d: context %s got id %u, expected %d", cyc, NAMES[i], id, want);
+        }
         cx_register_customs(life_ncustom);
         cx_model_begin_expansion(&xmodel); cx_model_reset_store(&xmodel); memset(&xmodel, 0, sizeof xmodel); xmodel.n_custom = life_ncustom;
         cx_slots sl; cx_slots_init(&sl);
         uint64_t dg = 0x11FE;
         if (life_argv) {
+            /* lines from the command line that hold nothing (empty, a comment, a magic-looking line): no event, both stacks untouched */
+            static const char *INERT[] = { "", "# alpha comment", "<libast-0.0>", "\n", "#" };
+            for (int q = 0; q < 2; q++) {
+                char *l0 = vh_heapstr(INERT[(life_nreg + q * 2 + life_ncustom) % 5]);
+                cx_log_reset();
+                vh_op("  cycle %d: spifconf_parse_line(NULL, %s) -- nothing to act on", cyc, vh_qs(l0));
+                spifconf_parse_line(NULL, (spif_charptr_t) l0);
+                free(l0);
+                struct spifconf_verif_state st0; const char *p0 = cx_tables_ok(&st0);
+                if (p0) vh_fail("tables", "after an empty line from argv: %s", p0);
+                VH_CHECK(fstate_idx == 0 && st0.ctx_state_idx == 0, "parse_line:file-stack", "after spifconf_parse_line(NULL, <nothing to act on>): fstate_idx %u, context stack depth %u (entry values 0, 0)", fstate_idx, st0.ctx_state_idx);
+                VH_CHECK(cx_nev == 0, "events:extra", "a line from argv with nothing to act on produced %d handler call(s)", cx_nev);
+                vh_evals(1); vh_count("argv_lines_with_nothing_to_act_on", 1);
+            }
             /* one configuration line handed over from the command line (stream argument NULL, "<context> <line>"): a begin, the line and an
              * end for that context, and both stacks back where they were */
             const char *cn = life_nreg ? NAMES[(life_ntrees + life_ncustom) % life_nreg] : "nosuchctx";      /* the same in every cycle */
@@ -675,7 +693,7 @@ int main(int argc, char **argv)
                 case_find();
                 vh_count("find_cases", 1);
             } else if (kind == K_LIFE) {
-                life_cycles = (int) vh_range(1, 5); life_ntrees = (int) vh_range(1, 3); life_nreg = (int) vh_range(0, 12); life_ncustom = (int) vh_below(5); life_null = vh_coin(50); life_argv = vh_coin(40);
+                life_cycles = (int) vh_range(1, 5); life_ntrees = (int) vh_range(1, 3); life_nreg = (int) vh_range(0, 12); life_ncustom = (int) vh_below(5); life_null = vh_coin(50); life_argv = vh_coin(40); life_null_at = vh_coin(50) ? 0 : (int) vh_range(0, life_nreg);
                 cx_ctxs_init(&ctxs);
                 if (life_null) cx_ctxs_register(&ctxs, "null", 0);
                 for (int i = 0; i < life_nreg; i++) cx_ctxs_register(&ctxs, NAMES[i], ctxs.n);
